@@ -84,6 +84,8 @@ structure InstW where
   lastTo : Nat := 1             -- to-state of the last recorded transition (CANDIDATE right after Start)
   lastOwnTok : Nat := 0         -- token of this instance's latest successful write
   lastAckRev : Nat := 0         -- revision of its latest successful write whose answer was delivered
+  lastAckAt : Nat := 0          -- when that answer was delivered
+  lastDeleteFailedAt : Option Nat := none   -- its latest Delete that was refused, lost or not answered in time
   claimedToks : List Nat := []  -- tokens for which the flag was raised
   ctxs : List CtxW := []
   healthRun : Nat := 0          -- consecutive unhealthy results in the current term
